@@ -172,7 +172,16 @@ def guarded(fn, *a, what="call", **kw):
 def rate(model, objs, call, ctx=None):
     if ctx is not None:
         ctx.called()
-    return guarded(model.rate, objs, what="rate", **call_kwargs(call))
+    kw = call_kwargs(call)
+    if call.get("positional"):
+        # the documented parameter order rate(teams, ranks, scores, tau, limit_sigma): the leading arguments passed positionally
+        # (as many as call["positional"] says, at most up to the last one that is given), the rest by keyword
+        order = ["ranks", "scores", "tau", "limit_sigma"]
+        last = max([i for i, k in enumerate(order) if k in kw], default=-1)
+        npos = min(int(call["positional"]), last + 1)
+        pos = [kw.pop(k, None) for k in order[:npos]]
+        return guarded(model.rate, objs, *pos, what="rate", **kw)
+    return guarded(model.rate, objs, what="rate", **kw)
 
 
 def vals(res) -> List[List[tuple]]:
